@@ -178,6 +178,44 @@ def bounded(ctx):
                 got, prod, _ = ba.run_assembly(v, [Mod(CircularRecord(Seq(t_), id="m%d" % i)) for i, t_ in enumerate(mts)])
                 gotr, prodr, _ = ba.run_assembly(vr, [Mod(CircularRecord(Seq(gen.rc(t_)), id="m%d" % i)) for i, t_ in enumerate(mts)])
                 distinct.add((name, chain_len, trial))
+                if trial == 0 and ov.get("valid") is True:
+                    # the same assembly with one more, unused module that starts with the vector's upstream overhang (where the
+                    # chain ends) or ends with its downstream one (where it starts): left out on both strands alike
+                    for which_ in ("starts-at-the-chain-end", "ends-at-the-chain-start"):
+                        x_ = None
+                        for _t in range(40):
+                            o_ = ba.clean(rng, k, e)
+                            used_ = {str(ov["overhang_start"]).upper(), str(ov["overhang_end"]).upper()} | {
+                                str(be.observe_entity(Mod(CircularRecord(Seq(t_), id="m"))).get(f_) or "").upper() for t_ in mts for f_ in ("overhang_start", "overhang_end")}
+                            if o_ in used_ or gen.rc(o_) in used_ or gen.rc(o_) == o_:
+                                continue
+                            if which_ == "starts-at-the-chain-end":
+                                x_ = ba.build_module(e, str(ov["overhang_start"]).upper(), ba.clean(rng, 4, e), o_, rng)
+                            else:
+                                x_ = ba.build_module(e, o_, ba.clean(rng, 4, e), str(ov["overhang_end"]).upper(), rng)
+                            if x_ is not None:
+                                break
+                        if x_ is None:
+                            continue
+                        evals += 1
+                        ga_, pa_, _ = ba.run_assembly(v, [Mod(CircularRecord(Seq(t_), id="m%d" % i)) for i, t_ in enumerate(list(mts) + [x_])])
+                        gb_, pb_, _ = ba.run_assembly(vr, [Mod(CircularRecord(Seq(gen.rc(t_)), id="m%d" % i)) for i, t_ in enumerate(list(mts) + [x_])])
+                        distinct.add((name, chain_len, which_))
+                        ends2_ = [str(be.observe_entity(Mod(CircularRecord(Seq(t_), id="m"))).get("overhang_end") or "").upper() for t_ in list(mts) + [x_]]
+                        rc2_ = [(a_, b_) for i_, a_ in enumerate(ends2_) for b_ in ends2_[i_ + 1:] if a_ and gen.rc(a_) == b_]
+                        if ga_[0] == "product" and gb_[0] == "DuplicateModules" and rc2_:
+                            viol.insert(0, dict(name="mirror_rc_ends", what="%s chain of %d: the assembly succeeds, its mirror image is refused with DuplicateModules: "
+                                                "two modules' downstream overhangs are reverse complements of each other (%s / %s)" % ((name, chain_len) + rc2_[0]),
+                                                case=dict(enzyme=name, vector=vt, modules=list(mts) + [x_])))
+                            continue
+                        else:
+                            starts2_ = [str(be.observe_entity(Mod(CircularRecord(Seq(t_), id="m"))).get("overhang_start") or "").upper() for t_ in list(mts) + [x_]]
+                            if any(a_ == b_ or gen.rc(a_) == b_ for i_, a_ in enumerate(starts2_) for b_ in starts2_[i_ + 1:]) or any(gen.rc(a_) == a_ for a_ in starts2_):
+                                continue      # the original is (rightly) refused: the statement speaks of assemblies that give a product
+                        if ga_[0] != gb_[0] or (pa_ is not None and not ba.is_rotation(str(pb_.seq), gen.rc(str(pa_.seq)))):
+                            viol.append(dict(name="unused_%s_%s" % (which_, name), what="%s chain of %d plus an unused module that %s: %r, the mirror image %r" % (
+                                name, chain_len, which_.replace("-", " "), ga_[:2] if ga_[0] != "product" else ga_[:1], gb_[:2] if gb_[0] != "product" else gb_[:1]),
+                                             case=dict(enzyme=name, vector=vt, modules=list(mts) + [x_])))
                 ends_ = [str(be.observe_entity(Mod(CircularRecord(Seq(t_), id="m"))).get("overhang_end") or "").upper() for t_ in mts]
                 rc_ends = [(x_, y_) for i_, x_ in enumerate(ends_) for y_ in ends_[i_ + 1:] if x_ and gen.rc(x_) == y_]
                 if got[0] == "product" and gotr[0] == "DuplicateModules" and rc_ends:
